@@ -111,11 +111,30 @@ func main() {
 		os.Exit(2)
 	}
 	rc := 0
+	var p386 *Program
+	needs386 := map[string]bool{"C04": true, "C07": true, "C09": true, "C11": true, "C12": true}
 	for _, id := range ids {
 		t1 := time.Now()
 		pi := properties[id]
 		c := &Ctx{P: p, Prop: id, Tier: *tier, Explain: pi.explain, Assume: append(append([]string{}, commonAssumptions...), pi.assume...)}
 		pi.run(c)
+		goarch := "host"
+		if *tier == "thorough" && needs386[id] {
+			// repeat the property's rules with 32-bit int (goreleaser's default matrix builds 386)
+			if p386 == nil {
+				p386, err = loadProgram(rp, false, "386")
+				if err != nil {
+					fmt.Fprintln(os.Stderr, "pikelint: GOARCH=386 load:", err)
+					os.Exit(2)
+				}
+			}
+			modCache = nil
+			c.P, c.Suffix = p386, "@386"
+			pi.run(c)
+			modCache = nil
+			c.P, c.Suffix = p, ""
+			goarch = "host+386"
+		}
 		if len(c.Obls) == 0 {
 			fmt.Fprintf(os.Stderr, "pikelint: %s produced no obligations\n", id)
 			os.Exit(2)
@@ -125,7 +144,7 @@ func main() {
 			"packages":       len(p.Pkgs),
 			"pike_functions": len(p.PikeFuncs()),
 			"whole_program":  p.Whole,
-			"goarch":         "host",
+			"goarch":         goarch,
 			"load_s":         t1.Sub(t0).Seconds(),
 		}
 		if *noEvidence {
